@@ -505,7 +505,7 @@ func c01Worker(c *Ctx, r *Report, prefix string) {
 			continue
 		}
 		for _, ce := range callsIn(probe) {
-			if strings.HasSuffix(calleeName(info, ce), ").processLineSync") {
+			if isAnchorCall(c, info, ce, extractorPkg, "(*extractorInstance).processLineSync") {
 				// the line argument is the range value
 				for _, a := range ce.Args {
 					if rng.Value != nil && identObj(info, a) == identObj(info, rng.Value) {
